@@ -182,9 +182,23 @@ fn main() {
             write_lines(&args.get("cases", "kkt.cases.ndjson"), &cases);
             println!("{}", json!({"layouts": ns, "states": lines.len() - ns}));
         }
+        "kktsolve" => {
+            let (lines, cases) = rec_kkt::record_solves(args.num("seed", 1), args.num("count", 300) as usize);
+            write_lines(&args.get("out", "kktsolve.ndjson"), &lines);
+            write_lines(&args.get("cases", "kktsolve.cases.ndjson"), &cases);
+            let steps: usize = lines.iter().map(|l| l["steps"].as_array().map(|a| a.len()).unwrap_or(0)).sum();
+            let count = |f: &dyn Fn(&Value) -> bool| lines.iter().filter(|l| f(l)).count();
+            println!("{}", json!({"solves": lines.len(), "refinement_steps": steps, "converged": count(&|l| l["converged"] == true),
+                "stalled": count(&|l| l["steps"].as_array().map(|a| a.last().map(|s| s["brk"] == true).unwrap_or(false)).unwrap_or(false)),
+                "failed": count(&|l| l["ok"] == false), "with_aux": count(&|l| l["p"].as_u64().unwrap_or(0) > 0)}));
+        }
         "kkt-replay" => {
             let v = load_case(&args);
             let p: problem::Problem = serde_json::from_value(v["problem"].clone()).unwrap();
+            if v.get("solves").is_some() {
+                write_lines(&args.get("out", "kkt.ndjson"), &rec_kkt::solve_events_of(v["run"].as_u64().unwrap_or(0) as usize, &p, v["rseed"].as_u64().unwrap_or(0)));
+                return;
+            }
             write_lines(&args.get("out", "kkt.ndjson"), &[rec_kkt::state_event_hist(v["run"].as_u64().unwrap_or(0) as usize, &p, v["k"].as_u64().unwrap_or(3) as u32, v["first"].as_u64().map(|x| x as u32))]);
         }
         "conestep" => {
